@@ -77,6 +77,8 @@ public:
     void StartNode();
     void MineBase(int n);
     int MineOn(int parent, int ntx, uint64_t txseed, int defect, int boundary, int time_mode);
+    /** Register an externally built block (e.g. one that confirms mempool transactions) with the model. */
+    int AddBlock(std::shared_ptr<const CBlock> block, int parent, const BlockLabel& label);
     void Deliver(int idx, bool force);
     void CheckAll(const char* where);
     void CheckUtxo(const char* where);
